@@ -112,27 +112,27 @@ TABLE = {
     r"^happy_eyeballs::EyeballSet::len\|assert-Overflow": ("by-construction", "queue.len() + tasks.len(): bounded by the number of resolved addresses"),
     r"^body::Body::as_boxed::\{closure#\d\}\|panic\|panic\|internal error: entered unreachable code": ("by-construction", "map_err on an Infallible error type"),
     r"^<bridge::io::TokioIo as tokio::io::AsyncRead>::poll_read\|assert-Overflow": ("by-construction", "filled + sub_filled <= capacity of one buffer"),
-    r"^client::builder::Builder::build_service\|result-unwrap\|expect\|user-agent should be a valid http header": ("constant-input", "user agent assembled from crate constants at build time, not from a request"),
+    r"^client::builder::Builder::build_service\|result-unwrap\|expect\|user-agent should be a valid http header\|<=HeaderValue::from_str$": ("constant-input", "user agent assembled from crate constants at build time, not from a request"),
     r"^<client::pool::checkout::Checkout as futures_core::Future>::poll\|panic\|panic_fmt": ("by-construction", "ConnectingWithDelayDrop(None) exists only after as_delayed() moved the connector out, which happens in drop: polling afterwards is impossible"),
-    r"^client::pool::key::TokenMap::insert::\{closure#0\}\|option-unwrap\|unwrap": ("by-construction", "checked_add(1).or(NonZero::new(1)) is always Some"),
-    r"^<client::pool::key::UriKey as std::convert::TryFrom>::try_from::\{closure#0\}\|result-unwrap\|unwrap": ("by-construction", "Uri::from_parts of parts obtained from Uri::into_parts round-trips"),
-    r"^client::pool::PoolInner::\w+\|option-unwrap\|unwrap": ("guarded", "Pooled::take() of the Pooled that was just built with connection: Some(..) and bounced back by oneshot send()", lambda facts, s: _take_of_bounced(facts, s)),
+    r"^client::pool::key::TokenMap::insert::\{closure#0\}\|option-unwrap\|unwrap\|<=Option::or$": ("by-construction", "checked_add(1).or(NonZero::new(1)) is always Some"),
+    r"^<client::pool::key::UriKey as std::convert::TryFrom>::try_from::\{closure#0\}\|result-unwrap\|unwrap\|<=Uri::from_parts$": ("by-construction", "Uri::from_parts of parts obtained from Uri::into_parts round-trips"),
+    r"^client::pool::PoolInner::\w+\|option-unwrap\|unwrap\|<=Pooled::take$": ("guarded", "Pooled::take() of the Pooled that was just built with connection: Some(..) and bounced back by oneshot send()", lambda facts, s: _take_of_bounced(facts, s)),
     r"^client::conn::transport::TransportExt::with_optional_tls\|panic": ("by-construction", "builder-time assertion (configuration), not on the request path"),
-    r"^client::Client::get::\{closure#0\}\|result-unwrap\|unwrap": ("by-construction", "Request::builder() with only a uri and method GET: building cannot fail for a Uri value"),
-    r"^service::host::set_host_header::\{closure#0\}\|option-unwrap\|expect\|authority implies host": ("guarded", "reached only after uri.host() was checked to be present", _host_guard),
-    r"^service::host::set_host_header::\{closure#0\}\|result-unwrap\|expect\|authority implies host": ("by-construction", "every byte http::Uri accepts in a host (and a decimal port) is a legal header-value byte"),
-    r"^service::http::http1::authority_form\|result-unwrap\|expect\|authority is valid": ("by-construction", "Uri::from_parts with only an authority taken from a valid Uri is authority-form"),
-    r"^service::http::http1::origin_form\|result-unwrap\|expect\|path is valid uri": ("by-construction", "Uri::from_parts with only the path_and_query of a valid Uri is origin-form"),
+    r"^client::Client::get::\{closure#0\}\|result-unwrap\|unwrap\|<=Builder::body$": ("by-construction", "Request::builder() with only a uri and method GET: building cannot fail for a Uri value"),
+    r"^service::host::set_host_header::\{closure#0\}\|option-unwrap\|expect\|authority implies host\|<=Uri::host$": ("guarded", "reached only after uri.host() was checked to be present", _host_guard),
+    r"^service::host::set_host_header::\{closure#0\}\|result-unwrap\|expect\|authority implies host\|<=\?$": ("by-construction", "every byte http::Uri accepts in a host (and a decimal port) is a legal header-value byte"),
+    r"^service::http::http1::authority_form\|result-unwrap\|expect\|authority is valid\|<=Uri::from_parts$": ("by-construction", "Uri::from_parts with only an authority taken from a valid Uri is authority-form"),
+    r"^service::http::http1::origin_form\|result-unwrap\|expect\|path is valid uri\|<=Uri::from_parts$": ("by-construction", "Uri::from_parts with only the path_and_query of a valid Uri is origin-form"),
     r"^service::http::http1::origin_form\|panic\|panic\|assertion failed: Uri::default\(\)": ("constant-input", "debug_assert on a constant expression"),
-    r"^<&str as helpers::IntoRequestParts>::into_request_parts\|result-unwrap\|unwrap|^<http::Uri as helpers::IntoRequestParts>::into_request_parts\|result-unwrap\|unwrap": ("by-construction", "test/convenience helper for building request parts from a caller-supplied address (TransportExt::oneshot); a malformed &str is the caller's literal, the http::Uri form cannot fail"),
-    r"^polled_span::\{closure#0\}\|option-unwrap\|expect\|Missing ID": ("by-construction", "tracing span bookkeeping"),
-    r"^<stream::tcp::TcpStream as info::HasConnectionInfo>::info\|result-unwrap\|expect\|(peer|local)_addr": ("by-construction", "getpeername/getsockname on a socket that connect() just reported as connected"),
-    r"^<stream::unix::UnixStream as info::HasConnectionInfo>::info\|result-unwrap\|expect": ("by-construction", "address of a connected unix socket; the path is the caller's own configuration"),
+    r"^<&str as helpers::IntoRequestParts>::into_request_parts\|result-unwrap\|unwrap\|<=Builder::body$|^<http::Uri as helpers::IntoRequestParts>::into_request_parts\|result-unwrap\|unwrap\|<=Builder::body$": ("by-construction", "test/convenience helper for building request parts from a caller-supplied address (TransportExt::oneshot); a malformed &str is the caller's literal, the http::Uri form cannot fail"),
+    r"^polled_span::\{closure#0\}\|option-unwrap\|expect\|Missing ID; this is a bug\|<=Span::id$": ("by-construction", "tracing span bookkeeping"),
+    r"^<stream::tcp::TcpStream as info::HasConnectionInfo>::info\|result-unwrap\|expect\|(peer|local)_addr is available for stream\|<=TcpStream::(peer|local)_addr$": ("by-construction", "getpeername/getsockname on a socket that connect() just reported as connected"),
+    r"^<stream::unix::UnixStream as info::HasConnectionInfo>::info\|result-unwrap\|expect\|(peer|local)_addr is available for unix stream\|<=UnixStream::(peer|local)_addr$": ("by-construction", "address of a connected unix socket; the path is the caller's own configuration"),
     r"^<rewind::Rewind as hyper::rt::Read>::poll_read\||^rewind::put_slice\|": ("guarded", "n = min(prefix.len(), remaining): C08.5"),
-    r"^client::conn::stream::tls::TlsStream::new\|result-unwrap\|expect\|should be valid dns name": ("guarded", "on the request path the domain was validated with ServerName::try_from in TlsTransportWrapper::call before any connection is made", _tls_domain_validated),
-    r"^<client::conn::stream::tls::TlsStream as std::convert::From>::from\|option-unwrap\|expect\|tls connect should have stream": ("by-construction", "tokio_rustls::Connect::get_ref() is Some for the Connect future that TlsStream::new created in the previous statement (not yet polled)"),
+    r"^client::conn::stream::tls::TlsStream::new\|result-unwrap\|expect\|should be valid dns name\|<=ServerName::try_from$": ("guarded", "on the request path the domain was validated with ServerName::try_from in TlsTransportWrapper::call before any connection is made", _tls_domain_validated),
+    r"^<client::conn::stream::tls::TlsStream as std::convert::From>::from\|option-unwrap\|expect\|tls connect should have stream\|<=Connect::get_ref$": ("by-construction", "tokio_rustls::Connect::get_ref() is Some for the Connect future that TlsStream::new created in the previous statement (not yet polled)"),
     r"^client::conn::stream::Stream::map\|panic": ("by-construction", "API misuse (map on a TLS stream) by the embedding program, never called by the crate on the request path"),
-    r"^client::default_tls_config\|result-unwrap\|(unwrap|expect)": ("by-construction", "platform certificate store is loaded when the client is configured, before any request exists"),
+    r"^client::default_tls_config\|result-unwrap\|(unwrap|expect)(\|could not load platform certs)?\|<=(RootCertStore::add|rustls_native_certs::load_native_certs|\?)$": ("by-construction", "platform certificate store is loaded when the client is configured, before any request exists"),
     r"^client::conn::stream::Stream::tls\|panic": ("by-construction", "Stream::tls called twice: the transport calls it once on a freshly built plain stream (ClientStream::new(..).tls(..))"),
     r"^<client::conn::transport::tls::future::TlsConnectionFuture as futures_core::Future>::poll\|panic": ("by-construction", "state machine: project_replace on the state the enclosing arm just matched / polled after ready"),
     r"^client::conn::transport::tcp::.*\|panic\|": ("by-construction", "socket option plumbing independent of request values"),
